@@ -272,6 +272,10 @@ func InfoString(info fs.FileInfo, withMTime bool) string {
 // Handles is the handle table of one side of a history.
 type Handles struct {
 	F []hackpadfs.File
+	// closed[slot]: an H.Close step has been issued on the handle. The handle stays in its slot (calls on closed handles are
+	// steps, too), but the harness's own housekeeping does not close it again: how often a handle is closed is the history's
+	// business alone.
+	closed []bool
 }
 
 func (h *Handles) get(slot int) hackpadfs.File {
@@ -285,12 +289,22 @@ func (h *Handles) set(slot int, f hackpadfs.File) {
 	for len(h.F) <= slot {
 		h.F = append(h.F, nil)
 	}
+	for len(h.closed) <= slot {
+		h.closed = append(h.closed, false)
+	}
 	h.F[slot] = f
+	h.closed[slot] = false
 }
+
+func (h *Handles) isClosed(slot int) bool { return slot >= 0 && slot < len(h.closed) && h.closed[slot] }
 
 // CloseAll closes what is still open (errors ignored, panics contained).
 func (h *Handles) CloseAll() {
 	for i, f := range h.F {
+		if f != nil && h.isClosed(i) {
+			h.F[i] = nil
+			continue
+		}
 		if f != nil {
 			func() {
 				defer func() { _ = recover() }()
@@ -453,7 +467,9 @@ func Exec(fsys hackpadfs.FS, st Step, hs *Handles, mt MTimeSet) (res Result) {
 		}
 	case "Open":
 		if old := hs.get(st.Slot); old != nil {
-			_ = old.Close()
+			if !hs.isClosed(st.Slot) {
+				_ = old.Close()
+			}
 			hs.set(st.Slot, nil)
 		}
 		f, err := hackpadfs.OpenFile(fsys, st.P, st.Flag, fs.FileMode(st.Perm))
@@ -470,6 +486,12 @@ func Exec(fsys hackpadfs.FS, st Step, hs *Handles, mt MTimeSet) (res Result) {
 				return
 			}
 			execHandle(f, st, &res)
+			if st.K == "H.Close" {
+				for len(hs.closed) <= st.Slot {
+					hs.closed = append(hs.closed, false)
+				}
+				hs.closed[st.Slot] = true
+			}
 			return
 		}
 		panic("fsx: unknown step kind " + st.K)
